@@ -5,7 +5,59 @@ import random
 from pyvc.bounded import Harness, Failure
 from spec import repo_api as RA, sexp as SX
 
-CONTRACTS = {}
+import z3
+from pyvc.core import Val
+from pyvc.sorts import S, B
+
+_lower = z3.Function("str_lower", S, S)
+_found = z3.Function("re_found", S, S, B)
+FFP = "exporters.ff_output_parser:MetricFFParser."
+
+
+def _h_lower(interp, st, a):
+    return Val(_lower(a[0].t), "str")
+
+
+def _h_found(interp, st, a):
+    return Val(_found(a[0].t, a[1].t), "bool")
+
+
+def _h_file_lines(interp, st, a):
+    return Val(z3.Function("file_lines", S, z3.SeqSort(S))(a[0].t), ("seq", "str"))
+
+
+_HOOKS = {"lower": _h_lower, "found": _h_found, "file_lines": _h_file_lines}
+CONTRACTS = {
+    "exporters.enhsp_output_parser:ENHSPParser.parse_plan_content": dict(
+        prop="C19", params={"input_path": "str"}, returns=("seq", "str"), locals={"plan_seq": ("seq", "str")},
+        # exactly the file's lines, in order, lower-cased: nothing dropped, merged or reordered - for every number of lines
+        ensures=["len(result) == len(file_lines(input_path))",
+                 "forall_int(lambda j: result[j] == lower(file_lines(input_path)[j]), 0, len(result))"],
+        raises={}, modifies=[], spec_hooks=_HOOKS,
+        loops={0: dict(invariants=["len(plan_seq) == _i",
+                                   "forall_int(lambda j: plan_seq[j] == lower(_seq[j]), 0, _i)"], modifies=[])}),
+    FFP + "_open_plan_file": dict(prop="C19", assumed=True, drop_self=False, params={"input_path": "str"}, returns="str",
+                                  ensures=[], raises={}, modifies=[], allocates=False),
+    FFP + "_parse_plan_content": dict(prop="C19", assumed=True, params={"self": ("ref", "MetricFFParser"), "planner_output": "str"},
+                                      returns=("ref", "list_str"), ensures=[], raises={}, modifies=[]),
+    FFP + "get_solving_status": dict(
+        prop="C19", params={"self": ("ref", "MetricFFParser"), "input_path": "str"}, returns="tuple",
+        locals={},
+        # classification relative to the marker searches: a log with the plan marker is 'ok' (with the extracted steps); otherwise
+        # it yields NO actions and is 'no-solution' iff one of the three no-solution markers occurs, else 'timeout'
+        ensures=["implies(found('ff: found legal plan as follows', content_of(input_path)), result[0] == 'ok')",
+                 "implies(not found('ff: found legal plan as follows', content_of(input_path)), "
+                 "result[0] == ('no-solution' if (found('problem proven unsolvable.', content_of(input_path)) or "
+                 "found('ff: goal can be simplified to FALSE. No plan will solve it', content_of(input_path)) or "
+                 "found('all increasers applied yet goal not fulfilled', content_of(input_path))) else 'timeout'))",
+                 "implies(not found('ff: found legal plan as follows', content_of(input_path)), len(result[1]) == 0)"],
+        raises={}, modifies=[],
+        calls={"self._open_plan_file": FFP + "_open_plan_file", "self._parse_plan_content": FFP + "_parse_plan_content"},
+        static_calls={"self._open_plan_file": True},
+        spec_hooks=dict(_HOOKS, content_of=lambda interp, st, a: Val(z3.Function("file_content", S, S)(a[0].t), "str"))),
+}
+CONTRACTS[FFP + "_open_plan_file"]["ensures"] = ["result == content_of(input_path)"]
+CONTRACTS[FFP + "_open_plan_file"]["spec_hooks"] = {"content_of": lambda interp, st, a: Val(z3.Function("file_content", S, S)(a[0].t), "str")}
 LEVEL = "exploration"
 EXPLANATION = ("bounded stand-in only: the meaning of MetricFFParser._parse_plan_content is that of a backtracking regular expression executed by "
                "CPython's re engine; no contract within reach of the SMT back ends gives finditer a usable semantics for unbounded logs, so the "
@@ -133,6 +185,7 @@ class ENHSP(Harness):
     def inputs(self, tier, seed):
         for n in list(range(0, 13)) + [100, 150]:
             yield {"n": n, "seed": seed}
+            yield {"n": n, "seed": seed, "no_final_newline": True}
 
     def nontrivial_key(self, inp):
         return inp["n"] if inp["n"] >= 2 else None
@@ -143,6 +196,8 @@ class ENHSP(Harness):
         rnd = random.Random(inp["seed"] + inp["n"])
         steps = _steps(inp["n"], rnd)
         text = "".join("(" + " ".join([nm.upper()] + args) + ")\n" for nm, args in steps)
+        if inp.get("no_final_newline"):
+            text = text.rstrip("\n")
         p = RA.write_tmp(text, ".plan")
         try:
             got = RA.outcome(ENHSPParser.parse_plan_content, p)
